@@ -153,6 +153,26 @@ def expiry_space(tier, prop):
     return out
 
 
+def unit_space(tier, prefix):
+    """Pressure-free expiry configurations with an odd time unit and with one-nanosecond
+    ticks (the whole alphabet; MUST and MAY oracles): a duration or a reading that is
+    rounded to milli- or microseconds anywhere expires entries early or late."""
+    thorough = tier == "thorough"
+    out = []
+    for kind in ("U", "S"):
+        for ex in (dict(ttl=2), dict(tti=2), dict(ttl=3, tti=2)):
+            for unit, tick in ((ODD_UNIT, 1000), (1, 1)):
+                base = dict(kind=kind, cap="none", alpha="basic", keys=2, unit=unit, tick=tick, A=2, **ex)
+                if kind == "U":
+                    kw = dict(base, D=8 if thorough else 6)
+                    out.append(seqjob(name(prefix + "unit", kw), **kw))
+                else:
+                    for b in ((1, 0) if unit == 1 else (1,)):
+                        kw = dict(base, D=7 if thorough else 6, Q=2, beyond=b)
+                        out.append(seqjob(name(prefix + "unit", kw), **kw))
+    return out
+
+
 def lru_space(tier):
     thorough = tier == "thorough"
     out = []
@@ -355,7 +375,7 @@ def scripted(kinds=("U", "S")):
     for kind in kinds:
         out.append({"id": "long-massinval-%s" % kind, "argv": ["longrun", spec(kind=kind, cap="none", keys=3, A=9), "massinval", "150"]})
         out.append({"id": "long-massinval-ttl-%s" % kind, "argv": ["longrun", spec(kind=kind, cap="none", ttl=3, keys=3, A=9), "massinval", "150"]})
-        for n in (10, 12):
+        for n in (10, 12, 20, 40, 100):
             out.append({"id": "long-manyvictims-%s-%d" % (kind, n), "argv": ["longrun", spec(kind=kind, cap=n, w=1, keys=3, lru=1, autosync=1 if kind == "S" else 0, A=0), "manyvictims", str(n)]})
         # warm newcomers (estimate 7) against hot residents, ~250 distinct newcomer keys
         for cap, h in ((4, "spread"), (4, "collide"), (2, "spread")):
@@ -469,7 +489,7 @@ def jobs_for(prop, tier):
     if prop in ("C08", "C10", "C04", "C03"):
         j = j + [{"id": "scalex-hugeweights", "argv": ["scalex", "hugeweights"]}]
     if prop in ("C13", "C14"):
-        j = j + [{"id": "scalex-sketchgrow", "argv": ["scalex", "sketchgrow"]}]
+        j = j + [{"id": "scalex-sketchgrow", "argv": ["scalex", "sketchgrow"]}, {"id": "scalex-sketchregrow", "argv": ["scalex", "sketchregrow"]}]
     if prop in ("C01", "C07", "C12", "C13", "C10", "C11"):
         j = j + scripted()
     # long scripted histories through the same per-step oracles (thresholds beyond any
@@ -480,6 +500,8 @@ def jobs_for(prop, tier):
         j = j + longruns([("churn", 100, 250), ("churn", 20, 250), ("fill", 300, 250)])
     elif prop in ("C12", "C13"):
         j = j + longruns([("churn", 100, 250), ("churn", 20, 250)], lru=1)
+    if prop in ("C01", "C03", "C16"):
+        j = j + unit_space(tier, prop.lower())
     # key / value types other than the search engines' own, RandomState, build() (E1d)
     if prop in ("C01", "C03", "C05", "C07", "C08", "C10", "C16"):
         j = j + [{"id": "scalex-types", "argv": ["scalex", "types"]}]
